@@ -47,12 +47,12 @@ Print Assumptions C16_rock_completed_entries_served_after_crash_write_once_parti
    key.  (The refutation above shows the hypothesis cannot be dropped.) *)
 Theorem C16_rock_crash_consistent_unless_overwrite_in_flight_bounded_partial :
   forall ops, In ops (fam_workloads 4 1) ->
-  let ss := sessions_of 8 2 ops in
-  forall n, (n <= length (all_writes 2 ss))%nat ->
-  overwrite_inflight 2 ss n = false ->
+  forall n, (n <= length (all_writes 2 (sessions_of 8 2 ops)))%nat ->
+  overwrite_inflight 2 (sessions_of 8 2 ops) n = false ->
   forall k, In k fam_keys ->
-  forall c, hit_after 8 2 ss n None k = Some c ->
-  exists s, In s ss /\ completed_b 2 ss n s = true /\ s_key s = k /\ c = full_stream s.
+  forall c, hit_after 8 2 (sessions_of 8 2 ops) n None k = Some c ->
+  exists s, In s (sessions_of 8 2 ops) /\ completed_b 2 (sessions_of 8 2 ops) n s = true /\ s_key s = k /\
+            c = full_stream s.
 Proof. exact sweep_sound. Qed.
 Print Assumptions C16_rock_crash_consistent_unless_overwrite_in_flight_bounded_partial.
 
